@@ -11,7 +11,7 @@ constructor x its argument product compared across all classes that offer it.
 """
 import itertools, math
 import numpy as np
-from mc import ref, alph
+from mc import ref, alph, hist
 from mc.core import call, HarnessError
 
 PROP = 'C04'
@@ -95,6 +95,22 @@ def embed3(ctx, cid, P, M):
 def step3(ctx, cid, P, st, g, how):
     """how in mulr (S*g), mull (g*S), inv"""
     o = {}
+    if how.startswith('pow'):
+        # integer power: each representation by its own operator (the twist by scaling its coordinates when the rotation stays inside
+        # the principal range, else re-derived from the SE3), the dual quaternion re-embedded
+        n_ = int(how[3:])
+        M = np.linalg.matrix_power(st.M if n_ >= 0 else ref.inv_h(st.M), abs(n_))
+        for n in ('SO3', 'SE3', 'UQ'):
+            x = st.o.get(n)
+            o[n] = safe(ctx, cid, n + '.pow', P, lambda x=x: x ** n_) if x is not None else None
+        tw = st.o.get('Twist3')
+        o['Twist3'] = None
+        if tw is not None and np.linalg.norm(np.asarray(tw.S, dtype=float)[3:]) * abs(n_) < PI - 1e-3:
+            o['Twist3'] = safe(ctx, cid, 'Twist3.mul', P, lambda: tw * float(n_))
+        elif o.get('SE3') is not None:
+            o['Twist3'] = safe(ctx, cid, 'SE3.Twist3', P, lambda: o['SE3'].Twist3())
+        o['UDQ'] = safe(ctx, cid, 'UnitDualQuaternion(SE3)', P, sm().UnitDualQuaternion, o['SE3']) if o.get('SE3') is not None else None
+        return State3(M, o, st.sc * max(1, abs(n_)))
     if how == 'inv':
         M = ref.inv_h(st.M)
         for n in st.names:
@@ -252,6 +268,19 @@ def embed2(ctx, cid, P, M):
 
 def step2(ctx, cid, P, st, g, how):
     o = {}
+    if how.startswith('pow'):
+        n_ = int(how[3:])
+        M = np.linalg.matrix_power(st.M if n_ >= 0 else ref.inv_h(st.M), abs(n_))
+        for n in ('SO2', 'SE2'):
+            x = st.o.get(n)
+            o[n] = safe(ctx, cid, n + '.pow', P, lambda x=x: x ** n_) if x is not None else None
+        tw = st.o.get('Twist2')
+        o['Twist2'] = None
+        if tw is not None and abs(float(np.asarray(tw.S, dtype=float)[2])) * abs(n_) < PI - 1e-3:
+            o['Twist2'] = safe(ctx, cid, 'Twist2.mul', P, lambda: tw * float(n_))
+        elif o.get('SE2') is not None:
+            o['Twist2'] = safe(ctx, cid, 'SE2.Twist2', P, lambda: o['SE2'].Twist2())
+        return State2(M, o, st.sc * max(1, abs(n_)))
     if how == 'inv':
         M = ref.inv_h(st.M)
         for n in st.names:
@@ -351,13 +380,28 @@ def bfs(ctx, dim, k, K):
             if ctx.want(cid):
                 ctx.case(cid, trivial=(gn == 'I|t=0'))
                 check(ctx, cid, dict(dim=dim, g=gn.split('|')[0], t=gn.split('t=')[1], depth=0), st)
+            # the same product state held by objects with a history (every conversion already used on them before they
+            # received their present value): all conversions must describe the value they hold now
+            for tag in ('setitem', 'append-pop'):
+                cidh = 'C04/%dD/state/%s/hist=%s' % (dim, gn, tag)
+                if not ctx.want(cidh):
+                    continue
+                aged = {}
+                for nme, ob in st.o.items():
+                    if ob is None or not hasattr(ob, 'data') or not isinstance(ob.data, list):
+                        aged[nme] = ob
+                        continue
+                    aged[nme] = dict(hist.variants(ob, _warm, fresh=False)).get(tag)
+                ctx.case(cidh, trivial=(gn == 'I|t=0'))
+                sth = (State3 if dim == 3 else State2)(st.M, aged, st.sc)
+                check(ctx, cidh, dict(dim=dim, g=gn.split('|')[0], t=gn.split('t=')[1], depth=0, hist=tag), sth)
     ntr = 0
     # composition letters: a landmark-preserving subset (all generators are still roots); bounds the branching factor
     gsub = [g for g in gens if g[0] in {x[0] for x in alph.subset(G, 6 if tier == 'quick' else 10, 3 if tier == 'quick' else 5)}]
     for d in range(depth):
         nxt = []
         for sn, st in frontier:
-            moves = [('inv', None, 'inv')]
+            moves = [('inv', None, 'inv')] + [('**%d' % n_, None, 'pow%d' % n_) for n_ in (-1, 2, -2, 0, 3)]
             for gn, g in gsub:
                 moves.append(('*' + gn, g, 'mulr'))
                 moves.append((gn + '*', g, 'mull'))
@@ -381,6 +425,18 @@ def bfs(ctx, dim, k, K):
     ctx.count('states', len(seen))
     ctx.count('transitions', ntr)
     ctx.count('lockstep', ntr * (5 if dim == 3 else 3))
+
+
+def _warm(o):
+    """use every conversion / accessor of a representation object once (results discarded)"""
+    S = sm()
+    for f in (lambda: o.A, lambda: o.R, lambda: o.SO3(), lambda: o.SE3(), lambda: o.SE2(), lambda: o.Twist3(), lambda: o.Twist2(), lambda: o.log(), lambda: o.log(twist=True),
+              lambda: o.exp(), lambda: o.vec, lambda: o.S, lambda: o.inv(), lambda: S.UnitQuaternion(o), lambda: S.Twist3(o), lambda: S.Twist2(o), lambda: S.UnitDualQuaternion(o),
+              lambda: S.SE3.SO3(o), lambda: o * o, lambda: o == o, lambda: o.angvec(), lambda: o.rpy(), lambda: o.t, lambda: o.theta(), lambda: o.xyt()):
+        try:
+            f()
+        except Exception:
+            pass
 
 
 # --------------------------------------------------------------------------- shared named constructors
